@@ -1221,6 +1221,34 @@ mut("pin-other-arch-arm-wrong-value", "break", ["C13", "C14"], "the non-x86 arm 
     [ed(I, """                    self.epoch.store(new_epoch, Ordering::Relaxed);
                     atomic::fence(Ordering::SeqCst);""", """                    self.epoch.store(global_epoch, Ordering::Relaxed);
                     atomic::fence(Ordering::SeqCst);""")], ["EBR-PIN-VALIDATE"])
+mut("dbg-mark-cas-in-debug-assert", "break", ["C05", "C04"], "the cascade's DESTRUCTED mark is a `debug_assert!(cas.is_ok())` (judged in the debug build, where it is still executed)",
+    [ed(U, """                match rc.state.compare_exchange(
+                    old.as_raw(),
+                    old.with_destructed(true).as_raw(),
+                    Ordering::SeqCst,
+                    Ordering::SeqCst,
+                ) {
+                    Ok(_) => break,
+                    Err(curr) => old = State::from_raw(curr),
+                }""", """                debug_assert!(rc
+                    .state
+                    .compare_exchange(
+                        old.as_raw(),
+                        old.with_destructed(true).as_raw(),
+                        Ordering::SeqCst,
+                        Ordering::SeqCst,
+                    )
+                    .is_ok());
+                break;""")], ["DBG-PURE"])
+mut("dbg-handle-count-set-in-debug-assert", "break", ["C16", "C20"], "acquire_handle increments inside a debug_assert_eq! ('check the old value while we are at it')",
+    [ed(I, """        self.handle_count.set(handle_count + 1);
+    }""", """        debug_assert_eq!(self.handle_count.replace(handle_count + 1), handle_count);
+    }""")], ["DBG-PURE"])
+mut("ok-dbg-assert-reads-more", "benign", [], "a debug_assert! that loads an atomic and calls a read-only helper",
+    [ed(I, """        self.handle_count.set(handle_count + 1);
+    }""", """        self.handle_count.set(handle_count + 1);
+        debug_assert!(self.epoch.load(Ordering::Relaxed).is_pinned() || self.guard_count.get() == 0 || self.handle_count.get() >= 1);
+    }""")])
 mut("wrap-atomicepoch-cas-always-ok", "break", ["C13", "C14"], "AtomicEpoch::compare_exchange reports Ok on failure",
     [ed(EPF, "Err(data) => Err(Epoch { data }),", "Err(data) => Ok(Epoch { data }),")], ["WRAP-ATOMICS"])
 mut("wrap-defer-none-runs-now", "break", ["C01", "C02", "C13"], "Option<&Guard>::defer_with_inner runs f at once when no guard is given",
